@@ -9,18 +9,45 @@ OVERLAY = {PKG + "/zz_c15_verif_test.go": "harness/overlay/eventbus/c15_verif_te
 
 
 def harness(ctx, casefile, tier, seed):
-    crash = casefile + ".crash"
-    if os.path.exists(crash):
-        os.remove(crash)
-    rc, out = ctx.go_test(PKG, "TestVerifC15$", OVERLAY,
-                          env={"VERIF_OUT": casefile, "VERIF_TIER": tier, "VERIF_SEED": str(seed)}, timeout=1500)
-    if rc != 0 and os.path.exists(crash):
-        # the test binary died (unrecoverable panic in a bus goroutine, or the harness stopped on a
-        # deadlock): the harness noted the case up to the fatal stimulus, ending in a panic label
-        if "panic:" in out or "fatal error:" in out:
-            with open(casefile, "a") as f:
-                f.write(open(crash).read())
-            ctx.notes.append("test binary crashed: " + " | ".join(l for l in out.splitlines() if l.startswith(("panic:", "fatal error:")))[:300])
+    """The Go test stops (exit 1, marker C15STUCK) when a run ends with operations that never returned:
+    the blocked goroutines cannot be released.  It is then restarted after that run (same PRNG stream,
+    C15_START) and the parts are concatenated.  A crash (unrecoverable panic) ends the search."""
+    for p in (casefile + ".part.crash", casefile, casefile + ".cov"):
+        if os.path.exists(p):
+            os.remove(p)
+    start, cov, rc, out, stuck = 0, {}, 0, "", 0
+    for attempt in range(80):
+        part = casefile + ".part"
+        for p in (part, part + ".cov"):
+            if os.path.exists(p):
+                os.remove(p)
+        rc, out = ctx.go_test(PKG, "TestVerifC15$", OVERLAY,
+                              env={"VERIF_OUT": part, "VERIF_TIER": tier, "VERIF_SEED": str(seed), "C15_START": str(start)}, timeout=1500)
+        n = 0
+        if os.path.exists(part):
+            with open(part) as f, open(casefile, "a") as g:
+                for line in f:
+                    g.write(line)
+                    if line.strip() and line[0] != "#":
+                        n += 1
+        for k, v in read_cov(part).items():
+            cov[k] = cov.get(k, 0) + v
+        if rc != 0 and "C15STUCK" in out and n > 0:
+            start += n
+            stuck += 1
+            continue
+        break
+    with open(casefile + ".cov", "w") as f:
+        for k in sorted(cov):
+            f.write("%s %d\n" % (k, cov[k]))
+    if stuck and rc == 0:
+        ctx.notes.append("harness restarted %d time(s) after a run that ended with operations that never returned" % stuck)
+    if rc != 0 and os.path.exists(casefile + ".part.crash") and ("panic:" in out or "fatal error:" in out):
+        # the test binary died (unrecoverable panic in a bus goroutine): the harness noted the case up to
+        # the fatal stimulus, ending in a panic label
+        with open(casefile, "a") as f:
+            f.write(open(casefile + ".part.crash").read())
+        ctx.notes.append("test binary crashed: " + " | ".join(l for l in out.splitlines() if l.startswith(("panic:", "fatal error:")))[:300])
     return rc, out
 
 
@@ -104,12 +131,34 @@ def nontrivial(line):
     return any(k == 3 and v >= 0 for k, a, b, v in labs)
 
 
+def stuck_shape(toks):
+    """Shape of a rule-12 failure: which operations never returned."""
+    nt, ems, subs, emits, labs = parse(toks)
+    started = [(a, b) for k, a, b, v in labs if k == 0]
+    returned = {(a, b) for k, a, b, v in labs if k == 1}
+    stuck = [x for x in started if x not in returned]
+    # a multi-type typed Subscribe that has not returned, an Emit of one of its types that has not returned,
+    # and a third operation that needs basicBus.lk (Emitter(), Emitter.Close, Subscribe, Subscription.Close)
+    for a, b in stuck:
+        if a == 3 and not subs[b][0] and len(subs[b][2]) >= 2:
+            tys = set(subs[b][2])
+            em_stuck = any(a2 == 2 and ems[emits[b2][0]][0] in tys for a2, b2 in stuck)
+            third = any(a2 in (0, 1, 3, 4) and (a2, b2) != (a, b) for a2, b2 in stuck)
+            if em_stuck and third:
+                return "half-registered-multi-type-Subscribe+Emit-stalled-on-it+bus-lock-waiter"
+    return None
+
+
 def key(tag, toks, d):
     # failing clause + subscription shape + the op kinds of the trace up to the failing label
     rule = d[1] if len(d) > 1 else -1
     pos = d[2] if len(d) > 2 else 0
     try:
         nt, ems, subs, emits, labs = parse(toks)
+        if rule == 12:
+            shape = stuck_shape(toks)
+            if shape:
+                return "C15:rule12:deadlock:withNode/tryDropNode-hold-basicBus.lk-while-waiting-for-n.lk:" + shape
         s = d[3] if len(d) > 3 else -1
         shape = ("wild" if subs[s][0] else "typed%d" % len(subs[s][2])) + ":cap%d" % subs[s][1] if 0 <= s < len(subs) else "-"
         ops = "".join("%d%d" % (k, a if k in (0, 1) else 0) for k, a, b, v in labs[:pos + 1])
@@ -130,7 +179,10 @@ if __name__ == "__main__":
         "basicBus.lk is folded into the n.lk acquisition it always precedes (withNode, tryDropNode); metrics/logging ignored; the 1 s slow-consumer timer only logs (exercised in the harness under virtual time, not modelled)",
         "a Go channel is a FIFO holding at most cap + (number of waiting receivers) items; the Close drainer is a permanently waiting receiver",
         "types of one Subscribe call are distinct; event values are distinguishable (unique ids); one Close call per subscription (closeOnce not modelled)",
-        "liveness is a state-predicate progress lemma (no_deadlock_partial), not full liveness under fairness (DESIGN.md section 10)",
+        "liveness is a state-predicate progress lemma (no_deadlock_partial), not full liveness under fairness (DESIGN.md section 10); it covers node locks and the wildcard read lock; the bus lock and the wildcard write lock (no leak, holder progress) are only exercised by the correspondence (monitor rule 12: every started operation returns once all subscriptions are closed)",
+        "only covered by the correspondence + monitor, not by a theorem: the monitor itself accepting every model trace (no headline theorem `monitor (trace) = ok`); Emitter.Close/closed-emitter error path; node drop semantics of `stateful` (DESIGN.md section 9 item 12: the monitor demands the retained event only while a stateful emitter of the type stayed open)",
+        "exactly-once is stated per occurrence of the sink in n.sinks; that a subscription is listed at most once per node follows from distinct types per Subscribe call (hypothesis of the theorem reading, not proved: c15_nothing_before_join / c15_stateful_replay_first take `~ In n (snodes c)`)",
+        "harness quiescence detection reads goroutine states (runtime.Stack) inside the synctest bubble because synctest.Wait does not treat sync.Mutex waits as durable blocks; monitor rules 4, 9, 10 rely on that quiescence between stimuli",
     ]
     standard_flow(ctx, dict(
         coq_targets=["c15/Properties.vo", "c15/Extract.vo"],
